@@ -340,16 +340,11 @@ impl PriceLevel {
                 order_id,
                 new_quantity,
             } => {
-                // Find the order
-                if self.orders.find(order_id).is_some() {
-                    // Remove the old order
-                    let old_order = match self.orders.remove(order_id) {
-                        Some(order) => order,
-                        None => return Ok(None), // Order not found, remove by other thread
-                    };
-
-                    // Current quantities are those of the order actually taken out: another
-                    // thread may have filled or amended it since the lookup above
+                // Replace the order in place, so that it keeps its position in the queue.
+                // The counters are adjusted while the entry is locked: nobody can take the
+                // order between the adjustment and the replacement.
+                let replaced = self.orders.replace_with(order_id, |old_order| {
+                    // Get current quantities
                     let old_visible = old_order.visible_quantity();
                     let old_hidden = old_order.hidden_quantity();
 
@@ -381,14 +376,11 @@ impl PriceLevel {
                         }
                     }
 
-                    // Add the updated order back to the queue
-                    let new_order_arc = Arc::new(new_order);
-                    self.orders.push(new_order_arc.clone());
+                    Arc::new(new_order)
+                });
 
-                    return Ok(Some(new_order_arc));
-                }
-
-                Ok(None) // Order not found
+                // `None`: order not found
+                Ok(replaced.map(|(_, new_order_arc)| new_order_arc))
             }
 
             OrderUpdate::UpdatePriceAndQuantity {
